@@ -21,6 +21,29 @@ type faultFile struct {
 	armed     bool
 	// skip: number of writes to let through before the armed one.
 	skip int
+	// syncFail: every Sync fails (the data written before it stays where it
+	// is, as after a real fsync error); syncFired records that one did.
+	syncFail  bool
+	syncFired bool
+}
+
+func (f *faultFile) Sync() error {
+	if f.syncFail {
+		f.syncFired = true
+		return errFileInjected
+	}
+	return f.File.Sync()
+}
+
+// ArmSyncFault makes every Sync of the store's flat file fail until disarmed;
+// the returned function disarms it and tells whether a Sync was attempted.
+func ArmSyncFault(store any) (disarm func() bool, err error) {
+	ff, err := injectFile(store)
+	if err != nil {
+		return nil, err
+	}
+	ff.syncFail, ff.syncFired = true, false
+	return func() bool { ff.syncFail = false; return ff.syncFired }, nil
 }
 
 var errFileInjected = errors.New("verif: injected file write failure")
